@@ -258,7 +258,7 @@ var CfgC17 = reg(&MachineCfg{
 		}
 	},
 	Gens: []interface{}{"hostile_tx", 30, "hostile_query", 26, "aol", 10, "did", 8, "pnft", 10, "burn", 3, "authz", 3, "commit", 10},
-	Bias: map[string]int{"right-signers": 96, "exec": 10, "right-proof": 90, "adversarial-ids": 1},
+	Bias: map[string]int{"right-signers": 96, "exec": 10, "right-proof": 70, "adversarial-ids": 1, "proof-empty-id": 8},
 	Rule: "pipeline half of C17: hostile messages (boundary-directed fields, absent sub-messages, 255/256/70000-byte strings, NUL, invalid UTF-8, malformed addresses) are delivered as signed transactions, alone and inside authz exec, into a populated chain, hostile query requests (all 12 custom endpoints, extreme offsets and pagination, arbitrary request bytes, latest/historical/non-existing heights) are served, and further blocks are produced; oracle = no DeliverTx/Query returns baseapp's recovered-panic error and BeginBlock/EndBlock/Commit never panic; non-trivial = >=3 hostile txs and >=3 hostile queries that were decoded and reached the entry point",
 	NonTrivial: func(w *world.World) bool {
 		return lab(w, "c17 hostile tx delivered") >= 3 && lab(w, "c17 query reached handler") >= 3
